@@ -57,11 +57,41 @@ func loadInfo(text string) (*prom.ConfigInfo, error) {
 // dropRegex is the metric relabel rule in force; a reload may replace it (rulesReloaded).
 var c20DropRegex = "drop_.*"
 
+// c20RuleStyle selects the metric relabel rules of the jobs: 0 = drop by metric name; 1 = drop on (metric name, label)
+// pairs - every drop_me sample and the first keep_metric sample; 2 = keep on (metric name, label) pairs - the first
+// five keep_metric samples.  The payload of a probe is keep_metric{i="0"}..{i="Samples-1"}, then drop_me{i=..}.
+var c20RuleStyle = 0
+
+func c20Survivors(sp *c20Target, style int) int64 {
+	switch style {
+	case 1:
+		if sp.Samples > 0 {
+			return int64(sp.Samples - 1)
+		}
+		return 0
+	case 2:
+		if sp.Samples > 5 {
+			return 5
+		}
+		return int64(sp.Samples)
+	}
+	return int64(sp.Samples)
+}
+
 func c20Config(jobs []string) string {
 	var b strings.Builder
 	b.WriteString("global:\n  scrape_interval: 15s\n  scrape_timeout: 10s\nscrape_configs:\n")
 	for _, j := range jobs {
-		fmt.Fprintf(&b, "- job_name: %s\n  metric_relabel_configs:\n  - source_labels: [__name__]\n    regex: %s\n    action: drop\n  static_configs:\n  - targets: ['x:1']\n", j, c20DropRegex)
+		rule := fmt.Sprintf("  - source_labels: [__name__]\n    regex: %s\n    action: drop\n", c20DropRegex)
+		if c20DropRegex == "drop_.*" {
+			switch c20RuleStyle {
+			case 1:
+				rule = "  - source_labels: [__name__, i]\n    regex: drop_me;.*|keep_metric;0\n    action: drop\n"
+			case 2:
+				rule = "  - source_labels: [__name__, i]\n    regex: keep_metric;[0-4]\n    action: keep\n"
+			}
+		}
+		fmt.Fprintf(&b, "- job_name: %s\n  metric_relabel_configs:\n%s  static_configs:\n  - targets: ['x:1']\n", j, rule)
 	}
 	return b.String()
 }
@@ -86,6 +116,8 @@ type c20Case struct {
 	// RulesReloaded: before anything is asked for, the configuration is reloaded with other
 	// metric_relabel_configs (nothing is dropped any more) and unchanged HTTP client settings
 	RulesReloaded bool        `json:"rulesReloaded,omitempty"`
+	// RuleStyle: see c20RuleStyle
+	RuleStyle int `json:"ruleStyle,omitempty"`
 	Workers       int         `json:"workers"`
 	Targets       []c20Target `json:"targets"`
 	Events        []c20Event  `json:"events"`
@@ -146,7 +178,7 @@ func (f *farm) RoundTrip(r *http.Request) (*http.Response, error) {
 }
 
 func recC20() *vkit.Recorder {
-	r := vkit.Rec("C20", "exploration", "rapid-generated schedules over the real Explore + real scrape manager with a counting in-memory transport: 1-6 targets with scripted probe outcomes (fail k times then succeed, fail for ever; responses held 1-3 ms), 1-4 workers, retry interval 20 ms (hook), events get / remove / re-add / drop-job at multiples of 5 ms, then Gets every 5 ms until every reachable target succeeded and 10 further intervals; unit TestC20Flood: 9 999-20 001 targets asked for at once (queue capacity 10 000), each probed exactly once; oracle over the request log (start/end per probe) and the values returned by Get; non-trivial = a target with >=1 failure before its success, or removed while failing; distinct = digest of the schedule")
+	r := vkit.Rec("C20", "exploration", "rapid-generated schedules over the real Explore + real scrape manager with a counting in-memory transport: 1-6 targets with scripted probe outcomes, metric relabel rules of three styles (drop by metric name; drop / keep on (metric name, label) pairs that treat samples of one metric differently) (fail k times then succeed, fail for ever; responses held 1-3 ms), 1-4 workers, retry interval 20 ms (hook), events get / remove / re-add / drop-job at multiples of 5 ms, then Gets every 5 ms until every reachable target succeeded and 10 further intervals; unit TestC20Flood: 9 999-20 001 targets asked for at once (queue capacity 10 000), each probed exactly once; oracle over the request log (start/end per probe) and the values returned by Get; non-trivial = a target with >=1 failure before its success, or removed while failing; distinct = digest of the schedule")
 	r.Assume("timing is used only in directions that cannot flake: gaps are lower-bounded by time.Sleep in the code under test; a missing retry is reported only after a 5 s grace period (250 retry intervals)")
 	return r
 }
@@ -191,12 +223,12 @@ func runC20(rec *vkit.Recorder, c *c20Case) []vkit.Violation {
 		sort.Strings(out)
 		return out
 	}
+	c20DropRegex, c20RuleStyle = "drop_.*", c.RuleStyle
+	defer func() { c20DropRegex, c20RuleStyle = "drop_.*", 0 }()
 	if err := cm.ReloadFromRaw([]byte(c20Config(cfgJobs()))); err != nil {
 		add("C20/harness", "%v", err)
 		return vs
 	}
-	c20DropRegex = "drop_.*"
-	defer func() { c20DropRegex = "drop_.*" }()
 	if c.RulesReloaded {
 		c20DropRegex = "never_matches_.*"
 		if err := cm.ReloadFromRaw([]byte(c20Config(cfgJobs()))); err != nil {
@@ -406,7 +438,7 @@ func runC20(rec *vkit.Recorder, c *c20Case) []vkit.Violation {
 		if st == nil {
 			continue
 		}
-		wantSeries := int64(sp.Samples)
+		wantSeries := c20Survivors(sp, c.RuleStyle)
 		if c.RulesReloaded {
 			wantSeries = int64(sp.Samples + sp.Dropped) // the rules in force drop nothing
 		}
@@ -500,6 +532,7 @@ func runC20(rec *vkit.Recorder, c *c20Case) []vkit.Violation {
 
 func genC20(t *rapid.T) *c20Case {
 	c := &c20Case{Workers: rapid.IntRange(1, 4).Draw(t, "workers"), RulesReloaded: rapid.IntRange(0, 3).Draw(t, "rulesReloaded") == 0}
+	c.RuleStyle = rapid.IntRange(0, 2).Draw(t, "ruleStyle")
 	n := rapid.IntRange(1, 6).Draw(t, "nTargets")
 	for i := 0; i < n; i++ {
 		l := fmt.Sprintf("t%d", i)
